@@ -230,12 +230,13 @@ class EllipsoidART(BaseART):
         dist = cache["dist"]
 
         radius_new = radius + (params["beta"] / 2) * (max(radius, dist) - radius)
-        centroid_new = centroid + (params["beta"] / 2) * (i - centroid) * (
-            1 - (min(radius, dist) / dist)
-        )
+        # a sample sitting exactly on the centre leaves the centre where it is
+        shrink = 1 - (min(radius, dist) / dist) if dist > 0 else 0.0
+        centroid_new = centroid + (params["beta"] / 2) * (i - centroid) * shrink
 
-        if not radius == 0.0:
-            major_axis_new = (i - centroid_new) / np.sqrt(l2norm2((i - centroid_new)))
+        offset_norm = np.sqrt(l2norm2((i - centroid_new)))
+        if not radius == 0.0 and offset_norm > 0:
+            major_axis_new = (i - centroid_new) / offset_norm
         else:
             major_axis_new = major_axis
 
